@@ -157,9 +157,19 @@ def run_translator(names=()):
 def make(targets, timeout=1500):
     """make the given .vo targets (relative to coq/).  Returns (ok, output)."""
     with Lock():
-        ensure_makefile()
-        cmd = ['timeout', str(timeout), 'make', '-k', f'-j{NPROC}'] + list(targets)
-        rc, out = sh(cmd, cwd=COQ, timeout=timeout + 30)
+        for attempt in range(3):
+            ensure_makefile()
+            cmd = ['timeout', str(timeout), 'make', '-k', f'-j{NPROC}'] + list(targets)
+            rc, out = sh(cmd, cwd=COQ, timeout=timeout + 30)
+            if rc and ("No rule to make target '.Makefile.d'" in out or 'No such file or directory' in out):
+                # the file list changed under us (a source file appeared/disappeared): regenerate
+                try:
+                    os.remove(os.path.join(COQ, '_CoqProject'))
+                except OSError:
+                    pass
+                time.sleep(1 + attempt)
+                continue
+            break
     return rc == 0, out
 
 
@@ -196,7 +206,8 @@ def theorems_in(rel):
 
 
 def parse_assumptions(output, names):
-    """Maps theorem name -> assumptions text, from the stdout of compiling a props file."""
+    """Maps theorem name -> 'closed' or the list of axiom names, from the stdout of compiling a
+    props file (one Print Assumptions per theorem, in order)."""
     blocks = []
     cur = None
     for line in output.split('\n'):
@@ -206,16 +217,13 @@ def parse_assumptions(output, names):
         elif line.startswith('Axioms:'):
             cur = []
             blocks.append(cur)
-        elif cur is not None and (line.startswith(' ') or line.strip() == '' or ':' in line) \
-                and not line.startswith('COQC') and not line.startswith('make'):
-            if line.strip():
-                cur.append(line.strip())
-        else:
-            cur = None
+        elif cur is not None:
+            m = re.match(r'^([A-Za-z_][\w.\']*)\s*(:|$)', line)
+            if m and not line.startswith(('COQC', 'make', 'File')):
+                cur.append(m.group(1))
     res = {}
-    thms = [n for n in names]
-    for n, b in zip(thms, blocks):
-        res[n] = b if b == 'closed' else ' '.join(b)
+    for n, b in zip(names, blocks):
+        res[n] = b if b == 'closed' else 'axioms: ' + ', '.join(b)
     return res
 
 
